@@ -226,6 +226,42 @@ def wire_scenario(entries):
         rig.close()
 
 
+def late_listing(item):
+    """the listing is announced (150) for the directory named when the verb arrived; a CWD before the data connection
+    is made must not make the server list another directory"""
+    zone, verb, arg = item
+    set_tz(zone)
+    from vf import model as M
+    from vf.conform import Conf, step as conf_step, step_late
+    part = report.Partial()
+    tree = {"dir": {"a": b"1", "b_c": b"22", "sub": {"inner": b"x"}}, "other": {"zzz": b"", "yyy": {}}}
+    conf = Conf([M.UserSpec(None)], tree)
+    for cwd1, cwd2 in (("/dir", "/other"), ("/other", "/dir"), ("/dir", "/dir/sub"), ("/", "/dir")):
+        rig = conf.new_rig()
+        model = conf.new_model()
+        try:
+            rig.ev(0, "@connect")
+            problems = []
+            for line in ("USER anonymous", "EPSV", "CWD " + cwd1):
+                pr, obs = conf_step(rig, model, line, conf)
+                problems += pr
+            if not problems:
+                pr, obs = step_late(rig, model, f"{verb} {arg}".rstrip(), "CWD " + cwd2, conf)
+                problems += pr
+            part.evaluations += 1
+            part.traces += 1
+            part.transitions += 6
+            k = report.fp(["late-listing", zone, verb, arg, cwd1, cwd2])
+            part.states.add(k)
+            part.nontrivial.add(k)
+            for p in problems[:1]:
+                part.violation({"kind": p["kind"], "via": verb.lower(), "late_data": True},
+                               {"problem": p, "cwd1": cwd1, "cwd2": cwd2, "arg": arg}, replay={"late": list(item)})
+        finally:
+            rig.close()
+    return part
+
+
 def wire_items(tier):
     configs = []
     rot = 0
@@ -247,7 +283,8 @@ def run(tier, seed, t0):
     for zone in ZONES:
         for i in range(0, len(ns), 3):
             items.append((zone, ns[i:i + 3], tier != "quick"))
-    parts = report.pmap(plane_work, items) + report.pmap(wire_case, wire_items(tier))
+    late = [("UTC", v, a) for v in ("MLSD", "LIST") for a in ("", ".", "sub", "..")]
+    parts = report.pmap(plane_work, items) + report.pmap(wire_case, wire_items(tier)) + report.pmap(late_listing, late)
     part = report.merge_all(parts)
     set_tz("UTC")
     bounds = {"now_values": len(ns), "years": [years[0], years[-1]], "mtime_range": "now-400d .. now+3d",
